@@ -1,3 +1,4 @@
+import IceTie.MuxUdp
 import IceProofs.UdpMuxSim
 import IceProofs.UniMuxSim
 import IceProofs.UniMuxConc
@@ -537,5 +538,39 @@ example : (0, WRes.ok 7) ∈ (IceModel.UniMux.step (uafter 1000 [.xorStart srvS 
   decide
 example : (1, WRes.ok 7) ∈ (IceModel.UniMux.step (uafter 1000 [.xorStart srvS 500, .inbound srvSmapped .stunNoUser (xOwn 7) 1])
     (.xorStart srvS 0)).2.fx.woke := by decide
+/-! ## Tie to the code (T, round 3): one iteration of `UDPMuxDefault.connWorker` (udp_mux.go), REGENERATED on every run
+(`IceGen.T_Mux`, loop mode) -/
+
+open IceTie.MuxUdp in
+/-- where a datagram goes: the canonical source is looked up in the address map first; only an unmapped source with a STUN payload
+that decodes and has a USERNAME is looked up by the text before the first ':' in the map of the canonical source's family; the
+datagram is written to exactly one connection iff one of the lookups found it, otherwise dropped; the worker ends only on a closed
+mux or a non-timeout read error.  The model's `inbound` consults the address map first and `lookupUfrag` answers only for
+`Kind.stunUser`, on `beforeColon` and the family of the canonical address -/
+theorem C12_code_connWorker :
+    (∀ closed readErr isTimeout e1 e2 e3 mapped isStun decodeErr noUsername byUfrag,
+      IceGen.udpMux_connWorker_iter closed readErr isTimeout e1 e2 e3 mapped isStun decodeErr noUsername byUfrag
+        = if closed then ([c "readFromUDPConn"], some ())
+          else if readErr then ([c "readFromUDPConn"], if isTimeout then none else some ())
+          else (c "readFromUDPConn" :: udpHead ++
+                 (if !mapped && isStun then
+                    udpLookup ++ (if decodeErr || noUsername then [] else udpByUfrag ++ (if byUfrag then [udpWrite] else []))
+                  else if mapped then [udpWrite] else []), none)) ∧
+    (∀ isTimeout e1 e2 e3 mapped isStun decodeErr noUsername byUfrag,
+      (IceGen.udpMux_connWorker_iter false false isTimeout e1 e2 e3 mapped isStun decodeErr noUsername byUfrag).1.count udpWrite
+        = if udpRouted mapped isStun decodeErr noUsername byUfrag then 1 else 0) ∧
+    (∀ (m : Mux) (src : Addr) (k : Kind) (pid c : Nat), m.closed = false → m.addrMap (canonAddr src) = some c →
+      (m.conn c).closed = false → (inbound m src k pid).2 = .delivered c) ∧
+    (∀ (m : Mux) (a : Addr) (k : Kind), lookupUfrag m a k =
+      match k with
+      | .stunUser n => (famMap m (!a.ip.is4)).get? (beforeColon n)
+      | _ => none) :=
+  ⟨connWorker_iter_tie, connWorker_delivers_iff, inbound_mapped, lookupUfrag_only_user⟩
+
+/-- non-vacuity: a mapped source is written without any STUN parsing; an unmapped non-STUN datagram is dropped -/
+example : (IceGen.udpMux_connWorker_iter false false false false false false true true false false false).1
+      = IceTie.MuxUdp.c "readFromUDPConn" :: IceTie.MuxUdp.udpHead ++ [IceTie.MuxUdp.udpWrite] ∧
+    (IceGen.udpMux_connWorker_iter false false false false false false false false false false true).1
+      = IceTie.MuxUdp.c "readFromUDPConn" :: IceTie.MuxUdp.udpHead := by decide
 
 end IceProps.C12
